@@ -64,6 +64,13 @@ def gen_scenario(r, n_tests=None, allow_signal=True, allow_hang=True):
               filter=r.choice([None, None, None, None, "_a", "_b"]),
               run_ignored=r.choice(["default", "default", "default", "all", "all", "only"]),
               sigint_at=None, groups=None, priorities=None)
+    # how threads / fail-fast / (delay-free) retries reach nextest: profile config, command line, or
+    # environment -- with a different decoy value in the config when it is not the source ("the
+    # command-line or environment value wins")
+    r2 = __import__("random").Random(r.random())
+    sc["via"] = dict(threads=r2.choices(["config", "cli", "env"], [6, 3, 2])[0],
+                     failfast=r2.choices(["config", "cli"], [6, 4])[0],
+                     retries=r2.choices(["config", "cli", "env"], [6, 2, 2])[0] if not delay_ms else "config")
     if r.random() < 0.3 and n >= 3:
         # one test group with a max-threads limit, and threads-required on some tests
         sc["groups"] = dict(name="g1", max_threads=r.choice([1, 2]), members=r.choice(["_a", "_b", "_c"]),
@@ -91,8 +98,11 @@ def puppet_scenario(sc):
 
 def nextest_config(sc, profile):
     lines = [f"[profile.{profile}]"]
+    via = sc.get("via") or {}
     if sc.get("retry_only"):
         lines.append("retries = 0")
+    elif via.get("retries", "config") != "config":
+        lines.append(f"retries = {sc['retries'] + 2}")   # decoy: the forced value replaces it
     elif sc["retries"]:
         if sc["delay_ms"]:
             if sc["backoff"] == "fixed":
@@ -105,10 +115,16 @@ def nextest_config(sc, profile):
         lines.append("retries = 0")
     lines.append('slow-timeout = { period = "300ms", terminate-after = 2, grace-period = "100ms" }')
     lines.append('leak-timeout = "150ms"')
-    lines.append(f'test-threads = {sc["threads"]}')
-    if sc["failfast"] == "ff":
+    if via.get("threads", "config") == "config":
+        lines.append(f'test-threads = {sc["threads"]}')
+    else:
+        lines.append(f'test-threads = {8 if sc["threads"] == 1 else 1}')   # decoy
+    ff = sc["failfast"]
+    if via.get("failfast", "config") != "config":
+        ff = {"ff": "noff", "noff": "ff", "maxfail2": "ff"}[ff]              # decoy
+    if ff == "ff":
         lines.append("fail-fast = true")
-    elif sc["failfast"] == "noff":
+    elif ff == "noff":
         lines.append("fail-fast = false")
     else:
         lines.append("fail-fast = { max-fail = 2 }")
@@ -129,6 +145,18 @@ def nextest_config(sc, profile):
     return "\n".join(lines) + "\n"
 
 
+def env_for(sc):
+    env = {}
+    via = sc.get("via") or {}
+    if via.get("threads") == "env":
+        env["NEXTEST_TEST_THREADS"] = str(sc["threads"])
+    if via.get("retries") == "env":
+        env["NEXTEST_RETRIES"] = str(sc["retries"])
+    if sc.get("no_capture"):
+        env["NEXTEST_EXPERIMENTAL_LIBTEST_JSON"] = "1"
+    return env or None
+
+
 def cli_args(sc, profile):
     a = ["--profile", profile]
     if sc["run_ignored"] == "all":
@@ -137,6 +165,13 @@ def cli_args(sc, profile):
         a += ["--run-ignored", "only"]
     if sc["filter"]:
         a += [sc["filter"]]
+    via = sc.get("via") or {}
+    if via.get("threads") == "cli":
+        a += ["--test-threads", str(sc["threads"])]
+    if via.get("failfast") == "cli":
+        a += {"ff": ["--fail-fast"], "noff": ["--no-fail-fast"], "maxfail2": ["--max-fail", "2"]}[sc["failfast"]]
+    if via.get("retries") == "cli":
+        a += ["--retries", str(sc["retries"])]
     if sc.get("no_capture"):
         a += ["--no-capture"]
         if sc["no_capture"] != "human":
@@ -222,7 +257,7 @@ def run(rig, sc, timeout=60):
         sigs = [(trig, signal.SIGINT)]
     res = rig.run(puppet_scenario(sc), nextest_config(sc, profile), args=cli_args(sc, profile), signals=sigs,
                   timeout=timeout,
-                  env_extra={"NEXTEST_EXPERIMENTAL_LIBTEST_JSON": "1"} if sc.get("no_capture") else None)
+                  env_extra=env_for(sc))
     res["profile"] = profile
     jp = os.path.join(e2e.PUPPET, "target", "nextest", profile, "junit.xml")
     res["junit_path"] = jp
